@@ -336,6 +336,14 @@ class Report(object):
         self.notes = []
         self.findings = load_findings()
         self.t0 = time.time()
+        # replay files of earlier runs of this property are stale
+        if os.path.isdir(REPLAYS):
+            for f in os.listdir(REPLAYS):
+                if f.startswith(pid + '-'):
+                    try:
+                        os.remove(os.path.join(REPLAYS, f))
+                    except OSError:
+                        pass
 
     def reject(self, signature, payload):
         fd = match_finding(self.pid, signature, self.findings)
@@ -347,7 +355,7 @@ class Report(object):
         return 'violation'
 
     def note_drift(self, msg):
-        if len(self.drift) < 50:
+        if len(self.drift) < 50 and msg not in self.drift:
             self.drift.append(msg)
 
     def finish(self, level, coverage, assumptions=()):
